@@ -179,10 +179,9 @@ func FindByKey[K comparable, V any](m map[K]V, fn func(K) bool) map[K]V {
 // For this to work, all of your map's values should be unique.
 func Invert[K, V comparable](m map[K]V) map[V]K {
 	inverted := map[V]K{}
-	keys := Keys(m)
 
-	for i := 0; i < len(keys); i++ {
-		inverted[m[keys[i]]] = keys[i]
+	for k, v := range m {
+		inverted[v] = k
 	}
 
 	return inverted
